@@ -20,10 +20,12 @@ type kitGroupObserver struct {
 	hlsMakeTs, cleanup  int
 }
 
-func (o *kitGroupObserver) CleanupHlsIfNeeded(appName string, streamName string, path string) { o.cleanup++ }
-func (o *kitGroupObserver) OnHlsMakeTs(info base.HlsMakeTsInfo)                              { o.hlsMakeTs++ }
-func (o *kitGroupObserver) OnRelayPullStart(info base.PullStartInfo)                         { o.pullStart++ }
-func (o *kitGroupObserver) OnRelayPullStop(info base.PullStopInfo)                           { o.pullStop++ }
+func (o *kitGroupObserver) CleanupHlsIfNeeded(appName string, streamName string, path string) {
+	o.cleanup++
+}
+func (o *kitGroupObserver) OnHlsMakeTs(info base.HlsMakeTsInfo)      { o.hlsMakeTs++ }
+func (o *kitGroupObserver) OnRelayPullStart(info base.PullStartInfo) { o.pullStart++ }
+func (o *kitGroupObserver) OnRelayPullStop(info base.PullStopInfo)   { o.pullStop++ }
 
 func kitConfig() *Config {
 	c := &Config{}
